@@ -64,6 +64,17 @@ TResolve == /\ IsEvent("Resolve")
                /\ (s1.res[Len(s1.res)].ans = "err") => (e.res = "err")
             /\ UNCHANGED <<nonce, bal, pool, gu, gr, mode, dead, last, hist, ver>>
 
+\* object re-use: every operation on the object is replayed on the model's object (sender cache, hash cache, decoders as coded)
+TObj == /\ IsEvent("Obj")
+        /\ LET e == TraceLog[l]
+               s0 == IF e.step = 1 THEN NewObject(e.cls, "none") ELSE sig
+               s1 == OpOn(s0, e.op)
+               a0 == s1.res[Len(s1.res)].ans
+               a == IF a0 = "same" THEN "A" ELSE a0 IN                       \* "same": the holder of key 1, i.e. A's signer
+           /\ sig' = s1
+           /\ e.op \notin Decoders => ((a = "A") <=> (e.res = "A")) /\ ((a = "B") <=> (e.res = "B"))
+        /\ UNCHANGED <<nonce, bal, pool, gu, gr, mode, dead, last, hist, ver>>
+
 \* V sweep: the answer for every presented V is the one YouSigner.Sender's rule gives
 TSenderV == /\ IsEvent("SenderV")
             /\ LET e == TraceLog[l]  a == RecoverV(e.net, e.v, e.orig) IN
@@ -79,7 +90,7 @@ TApplyBig == /\ IsEvent("ApplyBig")
              /\ UNCHANGED vars
 
 TInit == Init /\ l = 1 /\ TLCSet(1, 0)
-TNext == TReset \/ TBegin \/ TApply \/ TResolve \/ TSenderV \/ TApplyBig
+TNext == TReset \/ TBegin \/ TApply \/ TResolve \/ TSenderV \/ TApplyBig \/ TObj
 TSpec == TInit /\ [][TNext]_tvars
 
 HighWater == /\ TLCSet(1, IF TLCGet(1) < l THEN l ELSE TLCGet(1))
